@@ -53,6 +53,18 @@ impl ReplayProtection {
     pub fn verif_most_recent_sequence(&self) -> u64 {
         self.most_recent_sequence
     }
+
+    /// Verification hook: digest (FNV-1a) of the whole window, to compare window states.
+    pub fn verif_window_digest(&self) -> u64 {
+        let mut h: u64 = 0xcbf2_9ce4_8422_2325;
+        for v in self.received_packet.iter().chain(std::iter::once(&self.most_recent_sequence)) {
+            for b in v.to_le_bytes() {
+                h ^= b as u64;
+                h = h.wrapping_mul(0x0000_0100_0000_01b3);
+            }
+        }
+        h
+    }
 }
 
 #[cfg(test)]
